@@ -236,9 +236,14 @@ class ErrorFamily:
         se = {'id': 'SE', 'acts': [{'id': 'AE', 'uses': IRQ, 'key': 'ke', 'catches': [{'on': c1, 'steps': [{'id': 'C1', 'acts': [{'id': 'AC', 'uses': MSG, 'key': 'mc'}], 'next': to}]}]}]}
         if second != 'uncaught':
             se['catches'] = [{'steps': [{'id': 'CX', 'acts': [{'id': 'AX', 'uses': MSG, 'key': 'mx'}]}]}]
-        wf = {'id': 'm1', 'steps': [{'id': 'S0', 'acts': [{'id': 'a0', 'uses': IRQ, 'key': 'k'}]}, se, {'id': 'SN', 'acts': [{'id': 'an', 'uses': IRQ, 'key': 'k'}]}]}
+        wf = {'id': 'm1', 'steps': [{'id': 'S0', 'acts': [{'id': 'a0', 'uses': IRQ, 'key': 'k0'}]}, se, {'id': 'SN', 'acts': [{'id': 'an', 'uses': IRQ, 'key': 'k'}]}]}
         rules = [{'match': {'key': 'ke'}, 'action': 'error', 'options': {'ecode': c1, 'message': 'boom'}, 'times': 1}]
-        if second != 'none':
+        if to == 'S0' and second != 'none' and rng.random() < 0.5:
+            # the second error is raised on the act of the re-entered EARLIER step: only that step and the workflow enclose
+            # it, the catch-all of the step that was left does not
+            second = 'on-earlier-step'
+            rules += [{'match': {'key': 'k0'}, 'action': 'next', 'times': 1}, {'match': {'key': 'k0'}, 'action': 'error', 'options': {'ecode': c2, 'message': 'again'}, 'times': 1}]
+        elif second != 'none':
             rules.append({'match': {'key': 'ke'}, 'action': 'error', 'options': {'ecode': c2, 'message': 'again'}, 'times': 1})
         rules.append({'match': {'uses': IRQ}, 'action': 'next', 'times': 1000})
         rt = rng.choice([{'flavor': 'current'}, {'flavor': 'current', 'chaos': {'max_yields': 3, 'seed': rng.randrange(1, 1 << 40)}}, {'flavor': 'multi', 'workers': 2, 'chaos': {'max_yields': 3, 'seed': rng.randrange(1, 1 << 40)}}])
@@ -259,7 +264,7 @@ class ErrorFamily:
         if cnt['CX'] != want_cx:
             out.append(V('C06', 'wrong-catch-ran', f"step-catch-all:{cnt['CX']}:{tag}", f"the step of the re-entered step's catch-all ran {cnt['CX']} times, expected {want_cx} (second error {r['c2']!r}: {r['second']})", scenario=sid))
         cbs = [(e['what'], e['state'], (e.get('inputs') or {}).get('ecode')) for e in h.cbs if e['what'] != 'start']
-        want = [('error', 'error', r['c2'])] if r['second'] == 'uncaught' else [('complete', 'completed', None)]
+        want = [('error', 'error', r['c2'])] if r['second'] in ('uncaught', 'on-earlier-step') else [('complete', 'completed', None)]
         if cbs != want:
             out.append(V('C06', 'terminal-event', f"{tag}:{'+'.join(x[0] for x in cbs) or 'none'}", f"expected {want}, got {cbs}", scenario=sid))
         return out
